@@ -102,7 +102,7 @@ Proof.
   - (* EvSilence *)
     apply andb_prop in P as [P Pv]. apply andb_prop in P as [P P3]. apply andb_prop in P as [P1 P2].
     apply Z.leb_le in P1, P2, P3.
-    unfold peer_idle_view in Pv. unfold client_idle.
+    unfold peer_idle_view in Pv. unfold idle_deadline, client_idle.
     destruct (Z.ltb_spec 0 (l_idle (e_adv e))); [|lia].
     destruct (Z.ltb_spec 0 pidle); apply Z.ltb_lt in Pv.
     + destruct (Z.leb_spec (Z.max (Z.min (l_idle (e_enf e)) pidle) pto3) d); [lia|].
@@ -187,7 +187,7 @@ Qed.
 Lemma wit_idle adv enf : 0 < l_idle enf -> (l_idle adv <= 0 \/ l_idle enf < l_idle adv) ->
   play adv enf [EvSilence (l_idle enf) 0 0] = Err IdleTimeout.
 Proof.
-  intros H0 H. unfold play. cbn [run]. unfold peer_ok, client_step, peer_idle_view, client_idle.
+  intros H0 H. unfold play. cbn [run]. unfold peer_ok, client_step, peer_idle_view, idle_deadline, client_idle.
   cbn [e_adv e_enf]. zb. cbn [andb].
   destruct (Z.ltb_spec 0 (l_idle adv)).
   - zb. reflexivity.
@@ -418,6 +418,78 @@ Theorem record_equals_wire_limits o ps :
 Proof.
   intros H W. exists (redraw o ps). unfold override_bytes, wire_bytes.
   rewrite (parse_marshal _ (wf_redraw o ps H W)). rewrite !kv_of_redraw. repeat split; reflexivity.
+Qed.
+
+(** * After any history of grants, what the client enforces is what it last advertised *)
+
+(* a step changes the enforced window and the peer's credit of a counter only by a grant on it *)
+Lemma client_step_windows e s x s1 o : client_step e s x = (s1, o) ->
+  forall k,
+    (exists w, x = EvGrant k w /\ rw (s1 k) = Z.max (rw (s k)) w /\ cr (s1 k) = Z.max (cr (s k)) w) \/
+    ((forall w, x <> EvGrant k w) /\ rw (s1 k) = rw (s k) /\ cr (s1 k) = cr (s k)).
+Proof.
+  intros H k.
+  assert (B : forall (t : state) k0 n, rw (bump t k0 n k) = rw (t k) /\ cr (bump t k0 n k) = cr (t k)).
+  { intros t k0 n. unfold bump, upd. destruct (kind_eqb k0 k) eqn:E; [apply kind_eqb_eq in E; subst|]; simpl; auto. }
+  destruct x as [ty n | ty n | n | j | len | k0 w | | d pidle pto3]; cbn [client_step] in H.
+  - right. split; [discriminate|].
+    destruct ((ty =? 0) || fits_client s (cnt_kind ty) (implicit_open s ty)); cbn [negb orb] in H; [|inversion H; subst; auto].
+    set (t := if ty =? 0 then s else bump s (cnt_kind ty) (implicit_open s ty)) in *.
+    assert (T : rw (t k) = rw (s k) /\ cr (t k) = cr (s k)).
+    { unfold t. destruct (ty =? 0); [auto | apply B]. }
+    destruct (fits_client t (sd_kind ty) n); cbn [negb orb] in H; [|inversion H; subst; exact T].
+    destruct (fits_client t KConn n); cbn [negb orb] in H; inversion H; subst; [|exact T].
+    destruct (B (bump t (sd_kind ty) n) KConn n) as [B1 B2]. destruct (B t (sd_kind ty) n) as [B3 B4].
+    destruct T. split; congruence.
+  - right. split; [discriminate|]. destruct (fits_client s (cnt_kind ty) n); cbn [negb orb] in H; inversion H; subst; auto; try apply B.
+  - right. split; [discriminate|]. destruct (fits_client s KCID n); cbn [negb orb] in H; inversion H; subst; auto; try apply B.
+  - right. split; [discriminate|]. destruct (fits_client s KCID (1 - j)); cbn [negb orb] in H; inversion H; subst; auto; try apply B.
+  - right. split; [discriminate|].
+    destruct (l_dgram (e_enf e) =? 0); [inversion H; subst; auto|].
+    destruct (len >? l_dgram (e_enf e)); inversion H; subst; auto.
+  - inversion H; subst. unfold upd. destruct (kind_eqb k0 k) eqn:E.
+    + apply kind_eqb_eq in E. subst. left. exists w. simpl. auto.
+    + right. split; [|auto]. intros w' Q. inversion Q; subst. rewrite kind_eqb_refl in E. discriminate.
+  - right. split; [discriminate|]. inversion H; subst. destruct (1 <? used (s KCID)); auto; try apply B.
+  - right. split; [discriminate|].
+    destruct (idle_deadline (l_idle (e_enf e)) pidle pto3 <=? d); inversion H; subst; auto.
+Qed.
+
+Lemma client_step_inv e s x s1 o : client_step e s x = (s1, o) -> inv s -> inv s1.
+Proof.
+  intros H I k. destruct (client_step_windows e s x s1 o H k) as [(w & _ & -> & ->) | (_ & -> & ->)];
+    specialize (I k); lia.
+Qed.
+
+Theorem grants_sync e : forall h s s', inv s -> run_st e s h = Some s' ->
+  forall k,
+    match last_grant k h with
+    | Some w => rw (s' k) = w /\ cr (s' k) = w
+    | None => rw (s' k) = rw (s k) /\ cr (s' k) = cr (s k)
+    end.
+Proof.
+  induction h as [|x t IH]; intros s s' I R k; simpl in R |- *.
+  - inversion R. auto.
+  - destruct (peer_ok e s x && grant_increasing s x) eqn:G; [|discriminate].
+    apply andb_prop in G as [_ G].
+    destruct (client_step e s x) as [s1 [c|]] eqn:C; [discriminate|].
+    pose proof (client_step_inv _ _ _ _ _ C I) as I1.
+    specialize (IH s1 s' I1 R k).
+    destruct (last_grant k t) as [w|]; [exact IH|].
+    destruct IH as [-> ->].
+    destruct (client_step_windows _ _ _ _ _ C k) as [(w & -> & Hr & Hc) | (N & Hr & Hc)].
+    + rewrite kind_eqb_refl. simpl in G. apply Z.ltb_lt in G. specialize (I k). split; lia.
+    + destruct x as [? ? | ? ? | ? | ? | ? | k0 w | | ? ? ?]; auto.
+      destruct (kind_eqb k0 k) eqn:E; [|auto]. apply kind_eqb_eq in E. subst. exfalso. exact (N w eq_refl).
+Qed.
+
+(* in particular, with [inv] (enforced >= advertised) at the start, enforced = advertised for a
+   counter from its first grant on, and everywhere if they were equal at the start *)
+Corollary grants_keep_equal e h s s' :
+  (forall k, rw (s k) = cr (s k)) -> run_st e s h = Some s' -> forall k, rw (s' k) = cr (s' k).
+Proof.
+  intros E R k. assert (I : inv s) by (intros j; rewrite E; lia).
+  pose proof (grants_sync e h s s' I R k) as G. destruct (last_grant k h); destruct G as [-> ->]; auto.
 Qed.
 
 (** * Every dial derives its own list from the spec's (untouched) list *)
